@@ -50,6 +50,12 @@ def placements(ctx):
             for w in sorted({1, 7, 8, free - 1, free, free + 1, bits}):
                 if 1 <= w <= bits:
                     out.append((t, bits, sg, w, "char c[%d]; %s f:%d; %s g:3; " % (j, t, w, t), "B"))
+    # Family D: the field is a member of a UNION after another bitfield member (every member starts at bit 0)
+    for t, bits, sg in TYPES:
+        for k in (1, 3, 5, 9, 13, 31, 33):
+            for w in sorted({1, 5, 7, 8, bits - 1, bits}):
+                if k < bits and 1 <= w <= bits:
+                    out.append((t, bits, sg, w, "%s pad:%d; %s f:%d; unsigned char raw; " % (t, k, t, w), "D"))
     for k in range(8):
         body = ("unsigned char pad:%d; " % k if k else "") + "_Bool f:1; "
         if k < 7:
@@ -62,10 +68,11 @@ def c_source(block):
     src = ["#include <string.h>\n"]
     for i, (t, bits, sg, w, body, fam) in enumerate(block):
         vt = "long long" if sg else "unsigned long long"
-        src.append("struct s%d { %s};\n" % (i, body))
-        src.append("void set_%d(struct s%d *p, %s v) { p->f = v; }\n" % (i, i, vt))
-        src.append("%s get_%d(struct s%d *p) { return p->f; }\n" % (vt, i, i))
-        src.append("int size_%d(void) { return sizeof(struct s%d); }\n" % (i, i))
+        su = "union" if fam == "D" else "struct"
+        src.append("%s s%d { %s};\n" % (su, i, body))
+        src.append("void set_%d(%s s%d *p, %s v) { p->f = v; }\n" % (i, su, i, vt))
+        src.append("%s get_%d(%s s%d *p) { return p->f; }\n" % (vt, i, su, i))
+        src.append("int size_%d(void) { return sizeof(%s s%d); }\n" % (i, su, i))
     return "".join(src)
 
 
@@ -73,7 +80,7 @@ def work(block):
     import cffi
     lib = cref.load_c(c_source(block))
     ffi = cffi.FFI()
-    ffi.cdef("".join("struct s%d { %s};\n" % (i, b[4]) for i, b in enumerate(block)))
+    ffi.cdef("".join("%s s%d { %s};\n" % ("union" if b[5] == "D" else "struct", i, b[4]) for i, b in enumerate(block)))
     bad = []
     ncases = 0
     naccept = 0
@@ -91,7 +98,7 @@ def work(block):
         cget.argtypes = [ctypes.c_void_p]
         cget.restype = cty
         size = getattr(lib, "size_%d" % i)()
-        T = "struct s%d" % i
+        T = "%s s%d" % ("union" if fam == "D" else "struct", i)
         try:
             if ffi.sizeof(T) != size:
                 bad.append((block[i], "sizeof", {"cffi": ffi.sizeof(T), "gcc": size}))
